@@ -39,6 +39,7 @@ int main(int argc, char **argv) {
             !h_hostport_op(toks[0], n - 1, toks + 1, stdout) &&
             !h_dns_op(toks[0], n - 1, toks + 1, stdout) &&
             !h_tcp_op(toks[0], n - 1, toks + 1, stdout) &&
+            !h_udp_op(toks[0], n - 1, toks + 1, stdout) &&
             !h_misc_op(toks[0], n - 1, toks + 1, stdout))
             fputs("bad-op", stdout);
         fputc('\n', stdout);
